@@ -13,4 +13,9 @@ CLAIMED['C16'] = {
     'text': 'Each index map / projection is verified against its set-theoretic contract for all vector lengths and all indices (loops by invariants); the round-trip statements are lemmas over those contracts. Five composite functions built from symbolic-length comprehensions are covered by the bounded stand-in only (stated in evidence).',
     'note': PROOF_NOTE + 'Subset-vector well-formedness is assumed in bijection form; that the constructors produce it is checked by the bounded stand-in.',
 }
+CLAIMED['C13'] = {
+    'technique': 'deductive: contract of is_good (criteria as postcondition) and per-segment postcondition of get_cycle_vector (ghost accept/renumbering functions, loop invariant, is_good by contract), VCs from the real source discharged by z3/cvc5; bounded stand-in: phase sequences <= 5/7 x edges x masks, container flag cache on/off',
+    'text': 'is_good is proved to compute exactly the documented criteria; get_cycle_vector (good / mask paths, ensure_2d and ensure_equal_dims inlined) is proved to label a wrap-delimited segment iff criteria and mask hold, with the order-preserving renumbering, for all lengths / thresholds / edges. The container flag is bounded only.',
+    'note': PROOF_NOTE + 'Single column; phase in [0,2pi].',
+}
 PENDING_REASON = {}
